@@ -6,8 +6,10 @@ import (
 	"os"
 	"path/filepath"
 	"strconv"
+	"strings"
 	"sync"
 	"sync/atomic"
+	"syscall"
 	"time"
 )
 
@@ -42,12 +44,36 @@ func ScratchRoot() string {
 	if v := os.Getenv("VERIF_SCRATCH"); v != "" {
 		base = v
 	}
+	sweepStaleScratch(base)
 	d, err := os.MkdirTemp(base, fmt.Sprintf("verif-%d-", os.Getpid()))
 	if err != nil {
 		panic(err)
 	}
 	scratchRoot = d
 	return d
+}
+
+// sweepStaleScratch removes scratch roots left by check processes that were killed (out of memory, a hard
+// time limit) before they could clean up: verif-<pid>-* whose process is gone. /dev/shm is RAM.
+func sweepStaleScratch(base string) {
+	ents, err := os.ReadDir(base)
+	if err != nil {
+		return
+	}
+	for _, e := range ents {
+		var pid int
+		var rest string
+		if n, _ := fmt.Sscanf(strings.Replace(e.Name(), "-", " ", 2), "verif %d %s", &pid, &rest); n != 2 || pid <= 1 || !e.IsDir() {
+			continue
+		}
+		if err := syscall.Kill(pid, 0); err == nil || err == syscall.EPERM {
+			continue // still running
+		}
+		if fi, err := e.Info(); err != nil || time.Since(fi.ModTime()) < 2*time.Minute {
+			continue
+		}
+		_ = os.RemoveAll(filepath.Join(base, e.Name()))
+	}
 }
 
 // Scratch returns a fresh directory under the per-process scratch root.
